@@ -502,7 +502,8 @@ if z3 is not None:
         "string_issues_of": _ulist("string_issues_of", 3), "char_issues_of": _ulist("char_issues_of", 3),
         "canonical_issues_of": _ulist("canonical_issues_of", 1), "tag_rule_issues_of": _ulist("tag_rule_issues_of", 3),
         "def_issues_of": _ulist("def_issues_of", 2), "all_tags_of": _ulist("all_tags_of", 1, "HedTag"), "direct_tags_of": _ulist("direct_tags_of", 1, "HedTag"),
-        "value_rule_issues_of": _ulist("value_rule_issues_of", 2), "ext_char_issues_of": _ulist("ext_char_issues_of", 2),
+        "text_char_issues_of": _ulist("text_char_issues_of", 2), "delimiter_issues_of": _ulist("delimiter_issues_of", 1),
+        "slash_issues_of": _ulist("slash_issues_of", 1), "value_rule_issues_of": _ulist("value_rule_issues_of", 2), "ext_char_issues_of": _ulist("ext_char_issues_of", 2),
         "derivative_unit_of": _derivative_unit_of, "float_parses": _float_parses, "float_of": _float_of, "SchemaEntry.has_attribute": _entry_has_attribute,
         "UnitClassEntry.has_attribute": _entry_has_attribute, "UnitEntry.has_attribute": _entry_has_attribute,
         "struct_equal": _struct_equal, "canon_of": _canon_of, "expansion_of": _expansion_of,
